@@ -28,6 +28,8 @@ def gen_cases(tier, seed):
     i = 0
     while True:
         yield {"seed": seed * 67867967 + i}
+        if i % 4 == 0:
+            yield {"seed": seed * 67867967 + i, "closure": True}
         i += 1
 
 
@@ -143,7 +145,57 @@ def shape(t):
     return t if isinstance(t, str) else t[0]
 
 
+# ---- statements inside the body of a closure literal that is called inside the same top-level item ------------
+# (the general generator's closures are called from later items, where eval-up-to cannot know their arguments)
+
+_CL_STMTS = [("x * 2", lambda x: str(x * 2), 2), ("x + 100", lambda x: str(x + 100), 2), ("x - 1", lambda x: str(x - 1), 2),
+             ("[x, 7]", lambda x: "[%d, 7]" % x, 0), ("(x, 1)", lambda x: "(%d, 1)" % x, 0), ("x == 3", lambda x: "True" if x == 3 else "False", 2),
+             ("max(x, 5)", lambda x: str(max(x, 5)), 3), ("Some(x)", lambda x: "Some(%d)" % x, 4)]
+
+
+def run_closure_case(case, sc):
+    rng = random.Random(case["seed"] * 7 + 1)
+    n = rng.choice([1, 2, 2, 3])
+    stmts = [rng.choice(_CL_STMTS) for _ in range(n)]
+    target = rng.randrange(n)
+    a = rng.choice([0, 3, 21, -4])
+    form = rng.choice(["let-call", "let-call", "immediate", "passed", "nested", "toplevel-fun-block"])
+    ind = "    "
+    body = "".join("%s%s\n" % (ind, t) for t, _f, _c in stmts)
+    lam = "fun(x: Int) {\n%s  }" % body
+    if form == "let-call":
+        src = "{\n  let f = %s\n  f(%d)\n}\n" % (lam, a)
+    elif form == "immediate":
+        src = "{\n  let r = %s(%d)\n  r\n}\n" % (lam, a)
+    elif form == "passed":
+        src = "fun verif_apply(g: Fun<(Int), Int>, v: Int) {\n  g(v)\n}\n{\n  let f = %s\n  verif_apply(f, %d)\n}\n" % (lam, a)
+        if stmts[-1][0] not in ("x * 2", "x + 100", "x - 1", "max(x, 5)"):
+            src = src.replace("Fun<(Int), Int>", "Fun<(Int), %s>" % {"[x, 7]": "List<Int>", "(x, 1)": "(Int, Int)", "x == 3": "Bool", "Some(x)": "Option<Int>"}[stmts[-1][0]])
+    elif form == "nested":
+        src = "{\n  let f = fun(y: Int) {\n  let g = %s\n  g(y)\n  }\n  f(%d)\n}\n" % (lam, a)
+    else:
+        src = "{\n  if True {\n  let f = %s\n  f(%d)\n  }\n}\n" % (lam, a)
+    text, f, coff = stmts[target]
+    # offset of the target statement (k-th body line) + the column of its own operator / bracket
+    lines = src.split("\n")
+    idx = [i for i, l in enumerate(lines) if l.startswith(ind) and l.strip() in [t for t, _f, _c in _CL_STMTS]][target]
+    off = sum(len(l) + 1 for l in lines[:idx]) + len(ind) + coff
+    got = cli_probe(src, off, sc)
+    key = "cli|closure-body|%s|%s|%s" % (form, "final" if target == n - 1 else "statement", text.split("(")[0].split(" ")[-1] if " " in text else text[:4])
+    detail = {"src": src, "offset": off, "expected": f(a), "observed": got, "form": form}
+    if got is None:
+        return {"status": "inconclusive", "key": None, "detail": detail}
+    if got[0] == "crash":
+        return {"status": "violated", "key": None, "sig": "crash:cli:closure-body:" + got[1], "detail": detail}
+    if got != ("ok", f(a)):
+        return {"status": "violated", "key": None, "detail": detail,
+                "sig": "wrong-value:cli:closure-body-%s:%s" % ("final" if target == n - 1 else "statement", form)}
+    return {"status": "held", "key": key}
+
+
 def run_case(case, sc):
+    if case.get("closure"):
+        return run_closure_case(case, sc)
     pr = G.generate(case["seed"], G.Opts(toplevel_pure=True, while_loops=False, errors=0.0, n_main=6, n_funs=2))
     src, p = printer.print_program(pr)
     try:
